@@ -20,6 +20,8 @@ import (
 	"github.com/zenon-network/go-zenon/protocol"
 	"github.com/zenon-network/go-zenon/protocol/downloader"
 	"github.com/zenon-network/go-zenon/verifier"
+	"github.com/zenon-network/go-zenon/vm/constants"
+	"github.com/zenon-network/go-zenon/wallet"
 	"github.com/zenon-network/go-zenon/zenon/mock"
 	. "zharness/hz"
 )
@@ -54,6 +56,9 @@ type runResult struct {
 }
 
 type session struct {
+	heavy  int
+	sizes  map[uint64]uint64
+	bridge protocol.ChainBridge
 	nd     *Node
 	pm     *protocol.ProtocolManager
 	app    *p2p.MsgPipeRW
@@ -87,6 +92,8 @@ func newSession(nd *Node, out *Out, rng *rand.Rand, hashAt []types.Hash) *sessio
 		s.height[hashAt[h]] = uint64(h)
 	}
 	bridge := protocol.NewChainBridge(nd.Ch, nd.Cs, verifier.NewVerifier(nd.Ch, nd.Cs), nd.Sv)
+	s.bridge = bridge
+	s.sizes = map[uint64]uint64{}
 	s.pm = protocol.NewProtocolManager(1, networkId, bridge)
 	s.pm.Start()
 	app, net := p2p.MsgPipe()
@@ -317,11 +324,34 @@ func (s *session) outcomeHashes(req interface{}, reqTerm M, size uint64, tag str
 	return true
 }
 
+// size of the momentum at height h inside a BlocksMsg (peer.SendBlocks strips the content of the genesis momentum)
+func (s *session) msize(h uint64) uint64 {
+	if v, ok := s.sizes[h]; ok {
+		return v
+	}
+	d := s.bridge.GetBlock(s.hashAt[h])
+	if h == 1 {
+		m := *d.Momentum
+		m.Content = nil
+		d = &nom.DetailedMomentum{Momentum: &m}
+	}
+	d.Momentum.EnsureCache()
+	n, _, err := rlp.EncodeToReader(d)
+	if err != nil {
+		panic(err)
+	}
+	s.sizes[h] = uint64(n)
+	return uint64(n)
+}
+
 func (s *session) item(kind int) (types.Hash, M) {
 	switch kind {
 	case 0:
 		h := 1 + uint64(s.rng.Int63n(int64(s.H)))
-		return s.hashAt[h], Con("IKnown", U64(h))
+		if s.heavy > 0 && s.rng.Intn(2) == 0 {
+			h = s.H - uint64(s.rng.Intn(s.heavy))
+		}
+		return s.hashAt[h], Con("IKnown", U64(h), U64(s.msize(h)))
 	default:
 		var x types.Hash
 		s.rng.Read(x[:])
@@ -331,7 +361,7 @@ func (s *session) item(kind int) (types.Hash, M) {
 
 func (s *session) request() bool {
 	out, rng := s.out, s.rng
-	switch k := rng.Intn(20); {
+	switch k := rng.Intn(24); {
 	case k < 5: // GetBlockHashesMsg
 		var hash types.Hash
 		var ht interface{}
@@ -421,8 +451,25 @@ func (s *session) request() bool {
 		}
 		out.Oracle(good, "reply-blocks-are-chain-blocks", Tup(I64(int64(n))))
 		out.Oracle(len(blocks) <= downloader.MaxBlockFetch, "reply-blocks-within-MaxBlockFetch", Tup(I64(int64(n)), I64(int64(len(blocks)))))
+		out.Oracle(m.size <= protocol.ProtocolMaxMsgSize, "reply-size-within-ProtocolMaxMsgSize", Tup("GetBlocks", I64(int64(n)), I64(int64(len(blocks))), U64(uint64(m.size))))
 		out.Count(fmt.Sprintf("blocks-reply-bytes<=2^%d", bitlen(uint64(m.size))))
-		out.Case("handle", in, Con("OBlocks", lstU(hts)), fmt.Sprintf("getblocks-n=%d", n))
+		var sum uint64
+		for _, h := range hts {
+			if h != 0 {
+				sum += s.msize(h)
+			}
+		}
+		// the message is the RLP list of the momentums: payload sum + list header
+		hdr := uint64(1)
+		if sum > 55 {
+			hdr = 1 + uint64((bitlen(sum)+7)/8)
+		}
+		out.Oracle(uint64(m.size) == sum+hdr, "reply-size-is-sum-of-momentum-sizes", Tup(U64(uint64(m.size)), U64(sum)))
+		tag := fmt.Sprintf("getblocks-n=%d", n)
+		if sum > 4<<20 {
+			tag += "-heavy"
+		}
+		out.Case("handle", in, Con("OBlocks", lstU(hts), U64(sum)), tag)
 		return true
 	case k < 15: // status after the handshake / unknown codes / oversized
 		var code uint64
@@ -487,7 +534,7 @@ func (s *session) request() bool {
 			out.Case("handle", in, Con("OErr", I64(errClassOf(end.err))), "undecodable")
 		}
 		return false
-	case k < 19: // well-formed messages without a reply (delivered to downloader / fetcher / pool): explored, then probed
+	case k < 23: // well-formed messages without a reply (delivered to downloader / fetcher / pool): explored, then probed
 		return s.noReply()
 	default: // random bytes / random RLP for a random code: no model, only survival
 		code := uint64(rng.Intn(10))
@@ -624,11 +671,110 @@ func junkBlock(rng *rand.Rand) *nom.AccountBlock {
 	return b
 }
 
+// a momentum that extends the frontier and is well-formed except for exactly one thing (so it must never be adopted)
+func (s *session) almostValidMomentum() *nom.DetailedMomentum {
+	rng := s.rng
+	fm, _ := s.nd.Ch.GetFrontierMomentumStore().GetFrontierMomentum()
+	m := &nom.Momentum{Version: fm.Version, ChainIdentifier: fm.ChainIdentifier, Height: fm.Height + 1, PreviousHash: fm.Hash,
+		TimestampUnix: fm.TimestampUnix + 10, Data: []byte{}, Content: nom.MomentumContent{}}
+	kp := g.PillarKeys[rng.Intn(len(g.PillarKeys))]
+	d := &nom.DetailedMomentum{Momentum: m, AccountBlocks: []*nom.AccountBlock{}}
+	defect := rng.Intn(9)
+	switch defect {
+	case 0: // signed by a key that is no pillar
+		kp = g.User1
+	case 1:
+		rng.Read(m.ChangesHash[:])
+	case 2:
+		m.TimestampUnix = fm.TimestampUnix + uint64(86400*365*(1+rng.Intn(50)))
+	case 3: // content names blocks that do not exist
+		for i := 1 + rng.Intn(150); i > 0; i-- {
+			var a types.AccountHeader
+			a.Address = g.User1.Address
+			rng.Read(a.Hash[:])
+			a.Height = uint64(1 + rng.Intn(5))
+			m.Content = append(m.Content, &a)
+		}
+	case 4: // account blocks that are not in the content
+		for i := 1 + rng.Intn(4); i > 0; i-- {
+			d.AccountBlocks = append(d.AccountBlocks, s.almostValidBlock())
+		}
+	case 5: // gap above the frontier
+		m.Height = fm.Height + uint64(2+rng.Intn(40))
+	case 6: // side chain below the frontier with an unknown parent
+		m.Height = fm.Height - uint64(rng.Intn(int(fm.Height)-1))
+		rng.Read(m.PreviousHash[:])
+	case 7:
+		m.Data = make([]byte, 1+rng.Intn(2000))
+	case 8:
+		m.ChainIdentifier += uint64(1 + rng.Intn(3))
+	}
+	m.Hash = m.ComputeHash()
+	m.PublicKey = kp.Public
+	m.Signature = kp.Sign(m.Hash.Bytes())
+	if defect == 0 && rng.Intn(2) == 0 {
+		m.Signature[rng.Intn(len(m.Signature))] ^= 1
+	}
+	s.out.Count(fmt.Sprintf("hostile-momentum:defect=%d", defect))
+	return d
+}
+
+// an account block generated by the real supervisor for a real user, then broken in one aspect (or not at all)
+func (s *session) almostValidBlock() *nom.AccountBlock {
+	rng := s.rng
+	u := []*wallet.KeyPair{g.User1, g.User2, g.User3}[rng.Intn(3)]
+	tpl := &nom.AccountBlock{BlockType: nom.BlockTypeUserSend, Address: u.Address, ToAddress: g.User2.Address, TokenStandard: types.ZnnTokenStandard, Amount: big.NewInt(int64(1 + rng.Intn(100)))}
+	tx, err := s.nd.Sv.GenerateFromTemplate(tpl, u.Signer)
+	if err != nil {
+		return junkBlock(rng)
+	}
+	b := tx.Block
+	defect := rng.Intn(11)
+	resign := true
+	switch defect {
+	case 0: // valid: ends up in the pool (the chain does not change)
+	case 1:
+		b.Height += uint64(1 + rng.Intn(5))
+	case 2:
+		rng.Read(b.PreviousHash[:])
+	case 3:
+		b.Amount = new(big.Int).Lsh(big.NewInt(1), uint(64+rng.Intn(200)))
+	case 4:
+		b.Signature[rng.Intn(len(b.Signature))] ^= 1
+		resign = false
+	case 5:
+		b.Data = make([]byte, constants.MaxDataLength+1+rng.Intn(100))
+	case 6:
+		b.BlockType = []uint64{0, nom.BlockTypeGenesisReceive, nom.BlockTypeContractSend, nom.BlockTypeContractReceive, 6, ^uint64(0)}[rng.Intn(6)]
+	case 7:
+		b.Address = types.TokenContract
+	case 8:
+		b.Difficulty = BoundaryU64(rng)
+		rng.Read(b.Nonce.Data[:])
+	case 9:
+		rng.Read(b.TokenStandard[:])
+	case 10: // descendant blocks nested inside a user block
+		depth := []int{1, 3, 50, 2000}[rng.Intn(4)]
+		cur := b
+		for i := 0; i < depth; i++ {
+			c := junkBlock(rng)
+			cur.DescendantBlocks = []*nom.AccountBlock{c}
+			cur = c
+		}
+	}
+	if resign {
+		b.Hash = b.ComputeHash()
+		b.Signature = u.Sign(b.Hash.Bytes())
+	}
+	s.out.Count(fmt.Sprintf("hostile-block:defect=%d", defect))
+	return b
+}
+
 func (s *session) noReply() bool {
 	rng, out := s.rng, s.out
 	var code uint64
 	var v interface{}
-	switch rng.Intn(5) {
+	switch rng.Intn(8) {
 	case 0:
 		code = protocol.BlockHashesMsg
 		hs := make([]types.Hash, rng.Intn(600))
@@ -651,17 +797,29 @@ func (s *session) noReply() bool {
 		code = protocol.BlocksMsg
 		l := make([]*nom.DetailedMomentum, rng.Intn(5))
 		for i := range l {
-			l[i] = junkMomentum(rng, s)
+			if rng.Intn(2) == 0 {
+				l[i] = s.almostValidMomentum()
+			} else {
+				l[i] = junkMomentum(rng, s)
+			}
 		}
 		v = l
 	case 3:
 		code = protocol.NewBlockMsg
-		v = junkMomentum(rng, s)
+		if rng.Intn(3) > 0 {
+			v = s.almostValidMomentum()
+		} else {
+			v = junkMomentum(rng, s)
+		}
 	default:
 		code = protocol.TxMsg
 		l := make([]*nom.AccountBlock, rng.Intn(5))
 		for i := range l {
-			l[i] = junkBlock(rng)
+			if rng.Intn(3) > 0 {
+				l[i] = s.almostValidBlock()
+			} else {
+				l[i] = junkBlock(rng)
+			}
 		}
 		v = l
 	}
@@ -707,6 +865,27 @@ func runHandlerChild(rng *rand.Rand, n int, out *Out, _ []string) {
 		}
 		nd.Momentum()
 	}
+	// in one child of three: momentums filled with 100 account blocks of MaxDataLength bytes (1.6 MB each as RLP)
+	heavy := 0
+	if rng.Intn(3) == 0 {
+		heavy = 7 + rng.Intn(6)
+		for m := 0; m < heavy; m++ {
+			cnt := 0
+			for _, u := range g.AllKeyPairs {
+				for k := 0; k < 13 && cnt < 100; k++ {
+					b := &nom.AccountBlock{BlockType: nom.BlockTypeUserSend, Address: u.Address, ToAddress: users[rng.Intn(3)], TokenStandard: types.ZnnTokenStandard,
+						Amount: big.NewInt(0), Data: make([]byte, constants.MaxDataLength)}
+					tx, err := nd.Sv.GenerateFromTemplate(b, u.Signer)
+					if err != nil || nd.Insert(tx) != nil {
+						break
+					}
+					cnt++
+				}
+			}
+			nd.Momentum()
+		}
+		out.Count("chain-height-class:heavy-tail")
+	}
 	ms := nd.Ch.GetFrontierMomentumStore()
 	H := ms.Identifier().Height
 	hashAt := make([]types.Hash, H+1)
@@ -721,6 +900,7 @@ func runHandlerChild(rng *rand.Rand, n int, out *Out, _ []string) {
 		out.Emit(M{"k": "progress", "session": fmt.Sprintf("%d:%s", i, mode)})
 		out.W.Flush()
 		s := newSession(nd, out, rng, hashAt)
+		s.heavy = heavy
 		out.Count("session:" + mode)
 		if s.handshake(mode) {
 			for r := 0; r < 25; r++ {
